@@ -122,7 +122,7 @@ func nontrivial(st *cg.Step) bool {
 	return len(st.Block.Transactions()) >= 1 && len(st.Cands) > len(st.Block.Transactions())
 }
 
-func runChain(ctx *hx.Ctx, spec *cg.Spec, stop int) {
+func runChain(ctx *hx.Ctx, spec *cg.Spec, stop int, withOracle bool) {
 	c, err := cg.New(spec)
 	if err != nil {
 		hx.Fatal("chaingen: %v (spec %+v)", err, spec)
@@ -130,13 +130,16 @@ func runChain(ctx *hx.Ctx, spec *cg.Spec, stop int) {
 	defer c.Close()
 	ctx.Cov.Count(fmt.Sprintf("forks:vip191=%s vip214=%s finality=%s galactica=%s", place(spec.VIP191, spec.Blocks), place(spec.VIP214, spec.Blocks),
 		place(spec.FINALITY, spec.Blocks), place(spec.GALACTICA, spec.Blocks)))
-	if spec.PoS {
+	if spec.Transition {
+		ctx.Cov.Count("chains:hayabusa-transition")
+	} else if spec.PoS {
 		ctx.Cov.Count("chains:pos-genesis")
 	} else {
 		ctx.Cov.Count("chains:poa")
 	}
 	var pend []pending
 	lastN := -1
+	lastKind := ""
 	fail := func(class, msg string, height int, found bool) {
 		ctx.Violation(class, msg, Replay{spec, height}, found)
 	}
@@ -185,6 +188,27 @@ func runChain(ctx *hx.Ctx, spec *cg.Spec, stop int) {
 			if view.PoS {
 				lastN = len(view.Cands)
 			}
+			if k == 0 {
+				if view.PoS && lastKind != "" && lastKind != "POS" {
+					ctx.Cov.Count("poa-to-pos-transition-inside-chain")
+				}
+				lastKind = view.Kind
+				for _, cd := range view.Cands {
+					if cd.Benef != nil {
+						ctx.Cov.Count("pos-leader-with-contract-beneficiary")
+						break
+					}
+				}
+			}
+			ri := 0
+			for i, cd := range s.Cands {
+				if s.AdoptErr[i] == "" {
+					if strings.HasPrefix(cd.Kind, "staker") && s.Receipts[ri].Reverted {
+						ctx.Cov.Count("tx:" + cd.Kind + ":reverted-in-vm")
+					}
+					ri++
+				}
+			}
 			ctx.Cov.Bucket("candidates", len(view.Cands))
 			ctx.Cov.Bucket("txs-in-block", len(s.Block.Transactions()))
 			for i, cd := range s.Cands {
@@ -219,6 +243,9 @@ func runChain(ctx *hx.Ctx, spec *cg.Spec, stop int) {
 			ups := c.UpdatesFor(s.Parent, signer, s.Block.Header().Timestamp())
 			cl, cw := c.CacheLines(view, fresh, s.Block, s.Receipts, ups, pr.pre, pr.postParent, pr.post)
 			pend = append(pend, pending{cl, cw, "cache", hgt})
+			if os.Getenv("VERIF_DEBUG") != "" {
+				fmt.Fprintf(os.Stderr, "#%d k=%d signer=%x time=%d parent=%x blk=%x\n  line=%s\n  want=%s\n  txs=%d kinds=%v\n", hgt, k, signer[:4], s.Block.Header().Timestamp(), s.Parent.Header.ID().Bytes()[:6], s.Block.Header().ID().Bytes()[:6], cl, cw, len(s.Block.Transactions()), kindsOf(s))
+			}
 			ctx.Cov.Count("cache-entry-for-parent:" + pr.pre.Kind)
 			ctx.Cov.Count("cache-entry-for-block:" + pr.post.Kind)
 			ex := cg.ExecOf(s.Block, s.Receipts, s.Stage.Hash())
@@ -230,6 +257,9 @@ func runChain(ctx *hx.Ctx, spec *cg.Spec, stop int) {
 				hx.Fatal("commit: %v", err)
 			}
 		}
+	}
+	if !withOracle {
+		return
 	}
 	lines := make([]string, len(pend))
 	for i, p := range pend {
@@ -244,15 +274,54 @@ func runChain(ctx *hx.Ctx, spec *cg.Spec, stop int) {
 	}
 	for i, p := range pend {
 		got := strings.Join(strings.Fields(ans[i]), " ")
-		if got != strings.Join(strings.Fields(p.want), " ") {
+		wantN := strings.Join(strings.Fields(p.want), " ")
+		if strings.HasPrefix(wantN, "proposers * |") {
+			ctx.Cov.Count("sole-authority-node-steps(active flag not written by authority.Update)")
+			if j := strings.Index(got, "|"); j >= 0 {
+				got = "proposers * " + got[j:]
+			}
+		}
+		if got != wantN {
 			// the implementation's own answers satisfied the property on this block (judge passed): the model no longer
-			// corresponds to the code
+			// corresponds to the code.  Before settling for that, search for an input on which the property itself fails:
+			// a budgeted targeted generation of chains of the same flavour, evaluated with the property predicates only.
+			if targetedSearch(ctx, spec) {
+				return
+			}
 			fail("correspondence:"+p.what, fmt.Sprintf("correspondence Validation.Body.%s ~ real %s no longer checks at #%d (the theorems of "+
 				"Properties/C01.v are about the model): impl=%q model=%q line=%q", map[string]string{"process": "process", "pack": "pack_block", "candidates": "cands_walk/pick (Validation.Cache)", "cache": "poa_step/pos_step (Validation.Cache)"}[p.what],
 				map[string]string{"process": "consensus.Process", "pack": "packer.Schedule/Adopt/Pack", "candidates": "authority.Candidates / scheduler.Candidates.Pick", "cache": "the validators cache (poaCacher/posCacher.Handle)"}[p.what], p.height, p.want, got, p.line), p.height, false)
 			return
 		}
 	}
+}
+
+// targetedSearch: chains of the same flavour (PoA / PoS-genesis / transition) as the disagreeing one, longer, judged
+// by the validator variants only (no oracle); true if a block on which the property fails was found (and reported).
+func targetedSearch(ctx *hx.Ctx, like *cg.Spec) bool {
+	r := hx.NewRand(like.Seed ^ 0x5eed)
+	before := len(ctx.Violations) + len(ctx.KnownHits)
+	for tried, ran := 0, 0; tried < 4000 && ran < 120; tried++ {
+		sp := cg.GenSpec(r.Fork(uint64(tried)), 36)
+		if sp.PoS != like.PoS || sp.Transition != like.Transition {
+			continue
+		}
+		ran++
+		ctx.Cov.Count("targeted-search-chains")
+		runChain(ctx, sp, 0, false)
+		if len(ctx.Violations)+len(ctx.KnownHits) > before {
+			return true
+		}
+	}
+	return false
+}
+
+func kindsOf(s *cg.Step) []string {
+	var out []string
+	for i, cd := range s.Cands {
+		out = append(out, cd.Kind+":"+s.AdoptErr[i])
+	}
+	return out
 }
 
 func place(f uint32, blocks int) string {
@@ -291,7 +360,7 @@ func main() {
 		if err := json.Unmarshal(b, &doc); err != nil || doc.Replay == nil || doc.Replay.Spec == nil {
 			hx.Fatal("bad replay file: %v", err)
 		}
-		runChain(ctx, doc.Replay.Spec, doc.Replay.Height)
+		runChain(ctx, doc.Replay.Spec, doc.Replay.Height, true)
 		ctx.Finish("replay", assumptions)
 	}
 	if dir := os.Getenv("VERIF_CORPUS"); dir != "" {
@@ -307,14 +376,14 @@ func main() {
 			}
 			if json.Unmarshal(b, &doc) == nil && doc.Replay != nil && doc.Replay.Spec != nil {
 				ctx.Cov.Count("corpus-cases")
-				runChain(ctx, doc.Replay.Spec, doc.Replay.Height)
+				runChain(ctx, doc.Replay.Spec, doc.Replay.Height, true)
 			}
 		}
 	}
 	r := hx.NewRand(ctx.Seed)
-	n := ctx.Scale(60, 1500)
+	n := ctx.Scale(360, 3000)
 	for i := 0; i < n && len(ctx.Violations) == 0; i++ {
-		runChain(ctx, cg.GenSpec(r.Fork(uint64(i)), 24), 0)
+		runChain(ctx, cg.GenSpec(r.Fork(uint64(i)), 24), 0, true)
 	}
 	ctx.Finish(rule, assumptions)
 }
